@@ -68,6 +68,9 @@ THEOREMS = [
     "BeyondVerif.C13.writers_convert_scale",
     "BeyondVerif.C13.stamp_instant_roundtrip",
     "BeyondVerif.C13.oem_dump_any_form",
+    "BeyondVerif.C13.center_name_roundtrip",
+    "BeyondVerif.C13.center_name_roundtrip_xml_partial",
+    "BeyondVerif.C13.center_name_roundtrip_xml_of_same_pats",
     "BeyondVerif.C13.man_ignition_tables",
     "BeyondVerif.C13.thrust_window_roundtrip",
     "BeyondVerif.C13.date_attr_shifts_window",
@@ -77,6 +80,9 @@ THEOREMS = [
     "BeyondVerif.C13W.mixed_scale_moves_instant",
     "BeyondVerif.C13W.oem_xml_noncartesian_form_ok",
     "BeyondVerif.C13W.opm_keplerian_maneuver_lost",
+    "BeyondVerif.C13W.xml_lagrange_centre_glued",
+    "BeyondVerif.C13W.lagrange_multiword_body_name_lost",
+    "BeyondVerif.C13W.solar_system_barycenter_ok",
     "BeyondVerif.C13W.man_stop_dated_ok",
     "BeyondVerif.C13W.oem_xml_one_point_ok",
     "BeyondVerif.C13W.oem_kvn_one_point_ok",
@@ -104,15 +110,17 @@ LEVEL_TEXT = ("Lean theorems over a structural model of beyond/io/ccsds (element
               "returns is accepted by both writers and is a fixed point of dump-then-load: opm_/omm_/oem_redump_total; tdm_redump_total_partial for a single "
               "path). Dates: every date of a message is converted to its TIME_SYSTEM before printing (regenerated: in_scale), so a date labelled like the "
               "message comes back identical and a date labelled otherwise comes back as the same instant (stamp_roundtrip_same_scale, stamp_instant_roundtrip, "
-              "stamp_instant_iff); both OEM writers accept points in any form (oem_dump_any_form); the thrust window [start, stop) of a continuous maneuver dated by start / median / stop comes back "
+              "stamp_instant_iff); both OEM writers accept points in any form (oem_dump_any_form); CENTER_NAME of every centre the library can create (analytical bodies, JPL bodies of one to three words, Lagrange points) "
+              "comes back as the frame name through the KVN writers' CamelCase split and the readers' title().replace (center_name_roundtrip, by `decide` over the names regenerated from the live objects; "
+              "center_name_roundtrip_xml_partial without the Lagrange points); the thrust window [start, stop) of a continuous maneuver dated by start / median / stop comes back "
               "(thrust_window_roundtrip). Tables regenerated from the source on every run and checked by `decide`: covariance key matrix, OEM row keys, the ten "
               "frames, covariance and maneuver frame aliases, written units, which groups each reader wraps, the date attribute printed as MAN_EPOCH_IGNITION, the "
               "readers' date_pos, whether the writers convert time scales / forms / Keplerian maneuvers. Exact differential correspondence (message tokens at "
               "written precision, error kinds, clock readings) of the compiled model with the real dumps/loads for all four types x both encodings x re-dump.")
 LEVEL_NOTE = ("whole-message theorems hold for well-formed objects: non-empty texts, one of the ten Earth-centred frames, covariance / maneuver frames own, QSW or TNW, "
-              "distinct epochs inside an ephemeris, at most nine participants per path, one time scale per message in the structural model (other labels: Model/CcsdsExt.lean); two clauses are false of the current code and "
-              "kept as a `_partial` theorem / kernel-checked counter-witness (open findings: multi-path TDM reloads as a list dumps refuses; "
-              "Keplerian maneuvers not written); float formatting/parsing, Date arithmetic, lxml and the splitting of KVN text into tokens are parameters of the "
+              "distinct epochs inside an ephemeris, at most nine participants per path, one time scale per message in the structural model (other labels: Model/CcsdsExt.lean); four clauses are false of the current code and "
+              "kept as `_partial` theorems / kernel-checked counter-witnesses (open findings: multi-path TDM reloads as a list dumps refuses; "
+              "Keplerian maneuvers not written; XML writer prints the centre of a Lagrange-point frame glued; Lagrange point of a body with a two-word name); float formatting/parsing, Date arithmetic, lxml and the splitting of KVN text into tokens are parameters of the "
               "model (exercised by the correspondence and the oracle); Lean kernel + propext/Classical.choice/Quot.sound")
 TECHNIQUE = ("Lean 4 proof by induction over line / sibling / segment lists + kernel `decide` on tables regenerated from the Python AST and on concrete messages; "
              "exact model/implementation correspondence through the line-protocol driver")
@@ -125,7 +133,8 @@ TRUSTED = [
     "float formatting (the writers' format specs, re-applied by the harness to the reloaded object) and float()/strptime parsing: texts are opaque tokens in the model",
     "lxml serialisation/parsing (element tree <-> text, pretty_print whitespace) and the splitting of KVN text into lines, `key = value [unit]` and whitespace-separated rows",
     "correspondence: real dumps/loads (format by argument and by configuration) vs compiled Lean model on identical messages; exact comparison of all restored fields as written text, of exception kinds, "
-    "of restored clock readings / labels (ext stamp), thrust windows (ext window), form and Keplerian handling (ext form, ext kepl)",
+    "of restored clock readings / labels (ext stamp), thrust windows (ext window), form and Keplerian handling (ext form, ext kepl), user-defined keys (ext udkey), "
+    "CENTER_NAME written and frame name rebuilt for every centre x both encodings (ext center)",
 ]
 ASSUMPTIONS = [
     "Model/Ccsds.lean and Model/CcsdsExt.lean are hand-written, branch for branch after the Python; they are tied to the code by the regenerated tables and the exact correspondence run",
@@ -138,12 +147,15 @@ ASSUMPTIONS = [
 ]
 NOT_COVERED = [
     "covariance / maneuver frames given as the NAME of an inertial frame (the orbit's own or another one): generated, checked by the oracle and the exact correspondence, but outside the well-formedness predicates of the whole-message theorems (own, QSW, TNW)",
-    "interplanetary centres (CENTER_NAME other than EARTH), OMM ephemeris type / classification (XML writes constants 0 / U), continuous maneuvers shorter than 0.5 ms (reload as impulsive), measures without a path (PVT: X, Y, ... are silently not written)",
+    "the structural model is Earth-centred: frames centred elsewhere (solar-system bodies, JPL bodies, Lagrange points) are generated for OPM and OEM, checked by the oracle, "
+    "and their CENTER_NAME writer/reader pair is modelled as string functions (center_name_roundtrip over the regenerated list of centre names, ext center correspondence), "
+    "but the whole-message theorems quantify over the ten Earth-centred frames; the JPL frame named `Earth` (EME2000 under another name, read back as EME2000) is left out; "
+    "Keplerian and other mu-dependent forms do not exist at a Lagrange point (no body); OMM ephemeris type / classification (XML writes constants 0 / U), continuous maneuvers shorter than 0.5 ms (reload as impulsive), measures without a path (PVT: X, Y, ... are silently not written)",
     "string-level corner cases: texts containing '=', '[', 'COMMENT', leading/trailing blanks or that are empty/whitespace-only",
     "reader-only notations (default units, RTN, day-of-year dates, dates without fraction, comment lines, acceleration columns, theory SGP4, missing EPHEMERIS_TYPE / CLASSIFICATION_TYPE, centre in lower case) are checked by the oracle "
     "(`variants`: same object decoded, re-dump possible) but not modelled; what RANGE_UNITS = s means is outside the statement: the writers never produce it, so no round trip of an object beyond wrote is involved, and the Range read from such a foreign TDM "
     "does round-trip through dumps/loads as it was read (lead for the maintainers, not a C13 finding: tdm.py multiplies seconds by km * c with c in m/s, 1000 times too large)",
-    "clauses false of the current code (open findings, proposed fixes not applied): C13-tdm-multi-path-reloads-as-list; C13-opm-keplerian-maneuver",
+    "clauses false of the current code (open findings, proposed fixes not applied): C13-tdm-multi-path-reloads-as-list; C13-opm-keplerian-maneuver; C13-xml-lagrange-centre-name-glued; C13-lagrange-centre-of-multiword-body",
 ]
 OPEN = [
     "generalise CovWf / OpmWf to frame tags that are names of other inertial frames (alias tables are the identity on them)",
@@ -155,8 +167,9 @@ RULE = ("correspondence: objects generated from one PRNG (OPM: 10 frames x 6 sca
         "in None/QSW/TNW (any case)/own frame by name/other inertial frame with comment absent/empty/one word/several words, user-defined fields absent/empty/1/2-4 with underscores, digits, lower case, CCSDS keywords, one a prefix of another; "
         "OMM: via Tle or direct, classification / ephemeris type, covariance, user-defined; OEM: 1-3 segments of 1-12 points with 0..n covariances, linear/lagrange, orders, name absent; TDM: 1-2 paths of 2-4 hops with 2-3 participants, 1-10 epochs, "
         "Range/Azimut/Elevation(/Doppler), built by append or from a list), restricted to one time scale / cartesian points / non-Keplerian maneuvers for the structural model, format by fmt= (4/5) or configuration (1/5); per object 2 round trips + 4 re-dumps; "
-        "plus the ext operations: thrust window (date_pos x duration x date), stamp (site x TIME_SYSTEM x scale), form (fmt x form), kepl (kind); a case is one request line, distinct = distinct line. "
-        "oracle: the same generators (plus Keplerian maneuvers, non-cartesian OEM points, dates labelled in another scale) and the fixed witness objects; loads(dumps(x)) compared with the ORIGINAL object field by field with the property's tolerances "
+        "plus the ext operations: thrust window (date_pos x duration x date), stamp (site x TIME_SYSTEM x scale), form (fmt x form), kepl (kind), udkey (name), center (every centre x fmt); a case is one request line, distinct = distinct line. "
+        "oracle: the same generators (plus Keplerian maneuvers, non-cartesian OEM points, dates labelled in another scale, and for OPM / OEM with probability 0.12 a frame centred on a solar-system body, "
+        "a body of the JPL test kernels or a Lagrange point) and the fixed witness objects; loads(dumps(x)) compared with the ORIGINAL object field by field with the property's tolerances "
         "(epochs: label + clock, or instant for a secondary date labelled otherwise; thrust window start and stop; delta-v; effect of the maneuver on the orbit; frames), KVN vs XML agreement, re-dump of everything loaded, and for every written text its "
         "variants in the optional notations the readers accept (same object, re-dump); failure family = exception type @ innermost beyond/io/ccsds function (or field that differs) + input class")
 
@@ -300,11 +313,11 @@ FORMS_OEM = ["cartesian"] * 8 + ["keplerian", "spherical"]
 def gen_opm(rng):
     ep = _epoch(rng)
     frame, scale = rng.choice(FRAMES), rng.choice(SCALES)
-    return {"type": "opm", "name": _name(rng), "id": _name(rng), "frame": frame, "scale": scale,
+    return _centre_form({"type": "opm", "name": _name(rng), "id": _name(rng), "frame": frame, "scale": scale,
             "epoch": ep, "state": _state(rng), "kep": rng.random() < 0.7, "cov": _cov(rng, frame), "mans": _mans(rng, ep, own=frame, scale=scale),
             "ud": _ud(rng), "as_orbit": rng.random() < 0.3, "meta_by_kwargs": rng.random() < 0.2,
             "form": rng.choice(FORMS), "no_meta": rng.random() < 0.07, "originator": rng.choice([None, None, "CNES", "my agency"]),
-            "prop": rng.choice(["Kepler", "J2", "none"])}
+            "prop": rng.choice(["Kepler", "J2", "none"]), "centre": _centre(rng)})
 
 
 def gen_omm(rng):
@@ -340,9 +353,9 @@ def gen_oem(rng, nseg=None):
                     c = _cov(rng, frame)
             pts.append({"epoch": ep + i * step, "state": _state(rng), "cov": c, "scale": _other_scale(rng, scale) if i == odd and i > 0 else None})
         method = rng.choice(["lagrange", "lagrange", "linear"])
-        segs.append({"name": _name(rng), "id": _name(rng), "frame": frame, "scale": scale,
+        segs.append(_centre_form({"name": _name(rng), "id": _name(rng), "frame": frame, "scale": scale,
                      "method": method, "order": rng.choice([None, 2, 5, 8, 11]), "points": pts,
-                     "form": rng.choice(FORMS_OEM), "no_meta": rng.random() < 0.07})
+                     "form": rng.choice(FORMS_OEM), "no_meta": rng.random() < 0.07, "centre": _centre(rng)}))
     return {"type": "oem", "segs": segs, "as_list": nseg > 1 or rng.random() < 0.3}
 
 
@@ -393,6 +406,73 @@ def gen_omm_checked(rng):
 
 
 GENS = {"opm": gen_opm, "omm": gen_omm_checked, "oem": gen_oem, "tdm": gen_tdm}
+
+# ---------------------------------------------------------------- centres other than the Earth
+# every centre the library can create: the two analytical solar-system bodies (beyond.env.solarsystem), every body of the JPL test
+# kernels (beyond.env.jpl.create_frames: planets, barycentres, the three-word SolarSystemBarycenter), Lagrange points of two bodies
+LAGRANGE = [("Earth", "Moon", 1), ("Earth", "Moon", 2), ("Earth", "Moon", 4), ("Sun", "Earth", 1), ("Sun", "Earth", 2), ("Sun", "Mars", 3),
+            ("Sun", "EarthBarycenter", 2)]
+_CENTRES = {}
+
+
+def centres():
+    """{label: spec of the centre}; JPL kernels of the library's own test data"""
+    if _CENTRES:
+        return _CENTRES
+    import logging
+    from beyond.config import config
+    jd = os.path.join(core.REPO, "tests", "data", "jpl")
+    config.set("env", "jpl", "files", [os.path.join(jd, f) for f in ("de403_2000-2020.bsp", "pck00010.tpc", "gm_de431.tpc")])
+    from beyond.env import jpl
+    logging.getLogger("beyond.frames.frames").setLevel(logging.ERROR)
+    jpl.create_frames()
+    for f in jpl.list_frames():
+        if f.name != "Earth":           # the JPL frame "Earth" is EME2000 under another name: it is written, and read back, as EME2000
+            _CENTRES["jpl:" + f.name] = {"src": "jpl", "name": f.name}
+    for n in ("Moon", "Sun"):
+        _CENTRES["solarsystem:" + n] = {"src": "solarsystem", "name": n}
+    for a, b, k in LAGRANGE:
+        _CENTRES[f"lagrange:{a}-{b}-L{k}"] = {"src": "lagrange", "name": f"{a}-{b}-L{k}", "a": a, "b": b, "k": k}
+    return _CENTRES
+
+
+_LAG = {}
+
+
+def centre_frame(c):
+    """the frame object, made the registered frame of its name (several sources create a `Moon` or a `Sun`)"""
+    from beyond.frames import frames as fr
+    centres()
+    if c["src"] == "jpl":
+        from beyond.env import jpl
+        f = {x.name: x for x in jpl.list_frames()}[c["name"]]       # (get_frame refuses the root of the kernel, SolarSystemBarycenter)
+    elif c["src"] == "solarsystem":
+        from beyond.env import solarsystem
+        f = solarsystem.get_frame(c["name"])
+    else:
+        key = (c["a"], c["b"], c["k"])
+        if key not in _LAG:
+            from beyond.env import jpl
+            from beyond.frames.lagrange import lagrange
+            fr.dynamic[c["a"]], fr.dynamic[c["b"]] = jpl.get_frame(c["a"]), jpl.get_frame(c["b"])
+            _LAG[key] = lagrange(jpl.get_frame(c["a"]), jpl.get_frame(c["b"]), c["k"])
+        f = _LAG[key]
+    fr.dynamic[f.name] = f
+    return f
+
+
+def _centre(rng, p=0.12):
+    if rng.random() >= p:
+        return None
+    cs = centres()
+    return dict(cs[rng.choice(sorted(cs))])
+
+
+def _centre_form(spec):
+    """a Lagrange point is not a body (no mu): only the forms that need none"""
+    if spec.get("centre") and spec["centre"]["src"] == "lagrange" and spec.get("form") not in ("cartesian", "spherical", "cylindrical"):
+        spec["form"] = "cartesian"
+    return spec
 
 
 # ---------------------------------------------------------------- spec -> real object
@@ -452,10 +532,11 @@ def build(spec):
         if spec.get("originator"):
             kw["originator"] = spec["originator"]
         d = _date(spec["epoch"], spec["scale"])
+        frame = centre_frame(spec["centre"]) if spec.get("centre") else spec["frame"]
         if spec["as_orbit"]:
-            o = Orbit(spec["state"], d, "cartesian", spec["frame"], _propagator(spec.get("prop", "Kepler")), **meta)
+            o = Orbit(spec["state"], d, "cartesian", frame, _propagator(spec.get("prop", "Kepler")), **meta)
         else:
-            o = StateVector(spec["state"], d, "cartesian", spec["frame"], **meta)
+            o = StateVector(spec["state"], d, "cartesian", frame, **meta)
         if spec.get("form", "cartesian") != "cartesian":
             o.form = spec["form"]
         if spec["cov"]:
@@ -490,8 +571,9 @@ def build(spec):
         for s in spec["segs"]:
             pts = []
             meta = {} if s.get("no_meta") else {"name": s["name"], "cospar_id": s["id"]}
+            frame = centre_frame(s["centre"]) if s.get("centre") else s["frame"]
             for p in s["points"]:
-                sv = StateVector(p["state"], _date(p["epoch"], p.get("scale") or s["scale"]), "cartesian", s["frame"], **meta)
+                sv = StateVector(p["state"], _date(p["epoch"], p.get("scale") or s["scale"]), "cartesian", frame, **meta)
                 if s.get("form", "cartesian") != "cartesian":
                     sv.form = s["form"]
                 if p["cov"]:
@@ -541,7 +623,7 @@ def _canon_cov(orb):
 
 def _canon_sv(o):
     c = o.copy(form="cartesian")
-    return {"epoch": _us(o.date), "scale": o.date.scale.name, "tai": _tai(o.date), "frame": o.frame.name, "center": o.frame.center.name,
+    return {"epoch": _us(o.date), "scale": o.date.scale.name, "tai": _tai(o.date), "frame": o.frame.name, "center": o.frame.center.name, "orientation": o.frame.orientation.name,
             "state": [float(x) for x in c.base], "cov": _canon_cov(c)}
 
 
@@ -660,7 +742,7 @@ def _cmp_epoch(a, b, where, diffs, main_scale=None):
 
 def _cmp_sv(a, b, where, diffs, main_scale=None):
     _cmp_epoch(a, b, where, diffs, main_scale)
-    for k in ("frame", "center"):
+    for k in ("frame", "center", "orientation"):
         if a[k] != b[k]:
             diffs.append((where + k, a[k], b[k]))
     if "state" in a:
@@ -806,6 +888,12 @@ def features(spec):
             f.append("no-tle")
         if t == "opm" and any(m["frame"] == "QSW" for m in spec["mans"]):
             f.append("man-qsw")
+    for c in ([spec.get("centre")] if t == "opm" else [x.get("centre") for x in spec["segs"]] if t == "oem" else []):
+        if c:
+            multi = c["src"] == "lagrange" and any(x.isupper() for x in c["a"][1:] + c["b"][1:])      # a body whose own name has several words
+            tag = "centre-" + c["src"] + ("-multiword" if multi else "")
+            if tag not in f:
+                f.append(tag)
     if t == "opm":
         if any(m["kind"] in ("KI", "KC") for m in spec["mans"]):
             f.append("man-kepl")
@@ -866,6 +954,12 @@ def classify(raw, feats):
         ("oem-xml-restored:point.instant", "mixed-scale", "mixed-scale-epoch:oem.point"),
         ("tdm-kvn-restored:obs.instant", "mixed-scale", "mixed-scale-epoch:tdm.observation"),
         ("tdm-xml-restored:obs.instant", "mixed-scale", "mixed-scale-epoch:tdm.observation"),
+        ("opm-kvn-load:UnknownFrameError@opm._loads_kvn", "centre-lagrange-multiword", "lagrange-centre-of-multiword-body"),
+        ("opm-xml-load:UnknownFrameError@opm._loads_xml", "centre-lagrange-multiword", "lagrange-centre-of-multiword-body"),
+        ("opm-xml-load:UnknownFrameError@opm._loads_xml", "centre-lagrange", "xml-lagrange-centre-name-glued"),
+        ("oem-kvn-load:UnknownFrameError@oem._loads_kvn", "centre-lagrange-multiword", "lagrange-centre-of-multiword-body"),
+        ("oem-xml-load:UnknownFrameError@oem._loads_xml", "centre-lagrange-multiword", "lagrange-centre-of-multiword-body"),
+        ("oem-xml-load:UnknownFrameError@oem._loads_xml", "centre-lagrange", "xml-lagrange-centre-name-glued"),
         ("opm-kvn-dump:AttributeError@opm._dumps_kvn", "man-kepl", "opm-keplerian-maneuver"),
         ("opm-xml-dump:AttributeError@opm._dumps_xml", "man-kepl", "opm-keplerian-maneuver"),
         ("opm-kvn-restored:man.effect", "man-kepl", "opm-keplerian-maneuver"),
@@ -1074,6 +1168,15 @@ def witness_specs():
         tdm([ob("Range", 0), dict(ob("Range", 12), scale="GPS")]),
         # (fixed 1daca9c) points kept in a non-cartesian form
         {"type": "oem", "segs": [dict(seg([pt(0), pt(1)]), form="keplerian")], "as_list": False},
+        # centres other than the Earth: the three-word JPL centre, a two-word one, an analytical body, in both message types that carry CENTER_NAME
+        opm(centre={"src": "jpl", "name": "SolarSystemBarycenter"}), opm(centre={"src": "jpl", "name": "MarsBarycenter"}, mans=[man("QSW")]),
+        opm(centre={"src": "solarsystem", "name": "Moon"}), opm(centre={"src": "jpl", "name": "Venus"}),
+        {"type": "oem", "segs": [dict(seg([pt(0, cov), pt(1)]), centre={"src": "jpl", "name": "SolarSystemBarycenter"})], "as_list": False},
+        {"type": "oem", "segs": [dict(seg([pt(0), pt(1)]), centre={"src": "solarsystem", "name": "Sun"}), seg([pt(0)])], "as_list": True},
+        # open finding: Lagrange-point centres (XML writer does not split the name); Lagrange point of a body whose own name has two words
+        opm(centre={"src": "lagrange", "name": "Earth-Moon-L1", "a": "Earth", "b": "Moon", "k": 1}, kep=False),
+        {"type": "oem", "segs": [dict(seg([pt(0), pt(1)]), centre={"src": "lagrange", "name": "Sun-Earth-L2", "a": "Sun", "b": "Earth", "k": 2})], "as_list": False},
+        opm(centre={"src": "lagrange", "name": "Sun-EarthBarycenter-L2", "a": "Sun", "b": "EarthBarycenter", "k": 2}, kep=False),
         # open finding: Keplerian maneuvers
         opm(mans=[dict(man(None), kind="KI", dkep={"da": 1000.0, "di": 0.0, "dOmega": 0.0})]),
         opm(mans=[dict(man(None), kind="KC", dur_ms=60000, dkep={"da": 1000.0, "di": 0.001, "dOmega": 0.0})]),
@@ -1341,6 +1444,43 @@ def read_tables():
     conv = lambda fn: any(x in ast.get_source_segment(src["oem.py"], _func(oem, fn)) for x in ('.form = "cartesian"', 'form="cartesian"'))
     t["oemKvnConvertsForm"], t["oemXmlConvertsForm"] = conv("_dumps_kvn"), conv("_dumps_xml")
     t["opmWritesKeplerian"] = "dkep2dv" in src["opm.py"] or "Keplerian" in src["opm.py"].replace("Keplerian elements", "")
+    # CENTER_NAME: under which test the writers split the CamelCase name of the centre (`" ".join(re.findall("[A-Z][^A-Z]*", name))`), and
+    # that the four readers rebuild the frame name with `.title().replace(" ", "")`
+    def center_pats(fname):
+        fn = _func(commons, fname)
+        local = {n.name for n in commons.body if isinstance(n, ast.FunctionDef)} - {fname}
+        fns = [fn] + [_func(commons, c.func.id) for c in ast.walk(fn) if isinstance(c, ast.Call) and isinstance(c.func, ast.Name) and c.func.id in local]
+        found = []
+        for f in fns:
+            for n in ast.walk(f):
+                if isinstance(n, ast.If) and any('" ".join(re.findall("[A-Z][^A-Z]*"' in ast.unparse(b).replace("'", '"') for b in n.body):
+                    tst = n.test
+                    if isinstance(tst, ast.Call) and ast.unparse(tst.func) == "re.search" and isinstance(_const(tst.args[0]), str):
+                        found.append(tst.args[0].value.split("|"))
+                    elif isinstance(tst, ast.Compare) and isinstance(tst.ops[0], ast.In) and isinstance(_const(tst.left), str):
+                        found.append([tst.left.value])
+                    else:
+                        raise RuntimeError(f"{fname}: test guarding the CamelCase split not understood: {ast.unparse(tst)}")
+        if len(found) != 1:
+            raise RuntimeError(f"{fname}: CamelCase split of the centre name not found (or found {len(found)} times)")
+        if ".upper()" not in ast.get_source_segment(csrc, fn):
+            raise RuntimeError(f"{fname}: centre name no longer upper-cased")
+        for pt in found[0]:
+            if pt != "L\\d" and not pt.isalnum():
+                raise RuntimeError(f"{fname}: pattern {pt!r} is neither a plain word nor L\\d")
+        return found[0]
+    t["kvnCenterPats"], t["xmlCenterPats"] = center_pats("dump_kvn_meta_odm"), center_pats("dump_xml_meta_odm")
+    for mod, nm, fns in ((opm, "opm.py", ("_loads_kvn", "_loads_xml")), (oem, "oem.py", ("_loads_kvn", "_loads_xml"))):
+        msrc = open(os.path.join(CCSDS_DIR, nm)).read()
+        for f in fns:
+            seg = ast.get_source_segment(msrc, _func(mod, f))
+            if '.title().replace(" ", "")' not in seg or '.lower() != "earth"' not in seg:
+                raise RuntimeError(f"{nm} {f}: the centre rule `center.title().replace(' ', '')` / `center.lower() != 'earth'` changed")
+    # names of the centres the library can create (live objects)
+    cs = centres()
+    t["centerNames"] = sorted({centre_frame(c).center.name for c in cs.values() if c["src"] != "lagrange"})
+    lag = sorted({centre_frame(c).center.name for c in cs.values() if c["src"] == "lagrange"})
+    t["lagrangeNames"] = [n for n in lag if " " not in n]
     # the USER_DEFINED_ prefix of the KVN keys: writers `f"USER_DEFINED_{k} = {v}\\n"`, readers `k.startswith(P)` ... `k[N:]`
     wp, rp, rs = set(), set(), set()
     for mod, name in ((opm, "opm.py"), (omm, "omm.py")):
@@ -1408,6 +1548,10 @@ def extract(ctx):
          f"def udWritePrefix : String := {json.dumps(t['udWritePrefix'])}",
          f"def udReadPrefix : String := {json.dumps(t['udReadPrefix'])}",
          f"def udReadSkip : Nat := {t['udReadSkip']}",
+         f"def kvnCenterPats : List String := {lstr(t['kvnCenterPats'])}",
+         f"def xmlCenterPats : List String := {lstr(t['xmlCenterPats'])}",
+         f"def centerNames : List String := {lstr(t['centerNames'])}",
+         f"def lagrangeNames : List String := {lstr(t['lagrangeNames'])}",
          "end BeyondVerif.Generated"]
     ch2 = core.write_if_changed(os.path.join(core.LEAN, "BeyondVerif", "Generated", "CcsdsExtTables.lean"), "\n".join(E) + "\n")
     return (["Generated/CcsdsTables.lean"] if ch else []) + (["Generated/CcsdsExtTables.lean"] if ch2 else [])
@@ -1535,13 +1679,15 @@ def corr_case(out, spec, via, kind):
 
 
 def _model_domain(spec):
-    """the structural model has no Keplerian maneuvers, no form of the points and one time scale per message: those three options
-    go through the `ext` operations (kepl, form, stamp)"""
+    """the structural model has no Keplerian maneuvers, no form of the points, one time scale per message and the Earth as centre:
+    those four options go through the `ext` operations (kepl, form, stamp, center)"""
     if spec["type"] == "opm":
         spec["mans"] = [dict(m, scale=None) for m in spec["mans"] if m["kind"] in ("I", "C")]
+        spec["centre"] = None
     if spec["type"] == "oem":
         for s in spec["segs"]:
             s["form"] = "cartesian"
+            s["centre"] = None
             for p in s["points"]:
                 p["scale"] = None
     if spec["type"] == "tdm":
@@ -1559,7 +1705,7 @@ def ext_cases(rng, n):
     """(request line, reply of the real code) for the operations of Model/CcsdsExt.lean"""
     from beyond.io.ccsds import dumps, loads
     from beyond.dates import timedelta
-    from beyond.orbits import Ephem
+    from beyond.orbits import Ephem, StateVector
     from beyond.orbits.man import ImpulsiveMan, ContinuousMan, KeplerianImpulsiveMan, KeplerianContinuousMan
     from beyond.utils.measures import MeasureSet, Range
     out = []
@@ -1610,6 +1756,24 @@ def ext_cases(rng, n):
         except Exception as e:
             real = f"err {type(e).__name__}"
         out.append((f"c13 ext udkey {name}", real, {"op": "udkey", "type": typ, "name": name}))
+    for label, c in sorted(centres().items()):
+        for fmt in ("kvn", "xml"):
+            f = centre_frame(c)
+            sv = StateVector([7.0e6, 1.0e5, -3.0e5, 10.0, 7500.0, 300.0], _date(ep, "UTC"), "cartesian", f, name="SAT", cospar_id="2020-001A")
+            enc = lambda x: x.replace(" ", "_")
+            try:
+                txt = dumps(sv, fmt=fmt, kep=False)
+                wr = re.search(r"CENTER_NAME\s*=\s*(.*)$|<CENTER_NAME>(.*)</CENTER_NAME>", txt, re.M)
+                wr = (wr.group(1) or wr.group(2)).strip()
+                try:
+                    rd = loads(txt).frame.name
+                except Exception as e:
+                    m = re.search(r"'([^']*)'", str(e))
+                    rd = m.group(1) if type(e).__name__ == "UnknownFrameError" and m else f"err:{type(e).__name__}"
+                real = f"{enc(wr)} {enc(rd)}"
+            except Exception as e:
+                real = f"err dump {type(e).__name__}"
+            out.append((f"c13 ext center {fmt} {enc(f.center.name)}", real, {"op": "center", "fmt": fmt, "centre": label, "name": f.center.name}))
     for fmt in ("kvn", "xml"):
         for form in FORMS[1:]:
             pts = [_sv0("UTC", ep + k * 60 * 10**6, float(k)) for k in range(2)]
